@@ -6,6 +6,7 @@ import (
 	"encoding/json"
 	"fmt"
 	"testing"
+	"testing/iotest"
 
 	"github.com/Eyevinn/mp4ff/bits"
 	"pgregory.net/rapid"
@@ -305,6 +306,25 @@ func checkOps(c opsCase) *harness.Fail {
 		}
 		if nb := r.NrBitsReadInCurrentByte(); nb != bitsInCurrentByte(p) {
 			return harness.Failf("C13|Reader.NrBitsReadInCurrentByte|position differs", "after op %d at bit %d: %d, want %d", i, p, nb, bitsInCurrentByte(p))
+		}
+	}
+	// the same stream through a reader that hands out its last byte together with io.EOF (allowed by the io.Reader
+	// contract; testing/iotest.DataErrReader): same values, no error
+	r3 := bits.NewReader(iotest.DataErrReader(bytes.NewReader(got)))
+	for i, o := range c.Ops {
+		var v int64
+		if o.K == "f" {
+			if r3.ReadFlag() {
+				v = 1
+			}
+		} else {
+			v = int64(r3.Read(o.W))
+		}
+		if err := r3.AccError(); err != nil {
+			return harness.Failf("C13|Reader|error", "op %d through a reader that returns its last byte together with io.EOF: %v", i, err)
+		}
+		if v != o.V {
+			return harness.Failf("C13|Reader.Read|value differs", "op %d %+v read back as %d through a reader that returns its last byte together with io.EOF (stream %x)", i, o, v, got)
 		}
 	}
 	// two's complement signed reads of the same stream
